@@ -101,7 +101,8 @@ func c1failingArrangement(p c1prog, want string, k int, seed uint64, pref []c1ar
 		}
 		match := cls == want
 		if within != nil {
-			match = cls != ""
+			// any class, also none: the same failure is being shrunk
+			match = true
 			for _, d := range diffs {
 				if !within.paths[d.path] || !within.kinds[d.kind] {
 					match = false
@@ -130,6 +131,9 @@ func c1failingArrangement(p c1prog, want string, k int, seed uint64, pref []c1ar
 				}
 			}
 			cost = cost*1000 + len(strings.Join(texts, ""))
+			if cls == "" {
+				cost -= 1 << 20 // an arrangement without any known shape settles the verdict
+			}
 			if cost < bestCost {
 				best, bestCost = f, cost
 			}
